@@ -5,6 +5,7 @@
   stack exactly, the succeeding one leaves the stack as it found it.  Core Lean only.
 -/
 import Gts.Lemmas.Locator
+import Gts.Spec.LocCanon
 namespace Gts
 open Pars ModParse LocParse
 
@@ -436,5 +437,277 @@ theorem multiple_run (f : Nat) (l : Loc) (ls : List Loc) (inp tail rest : Bytes)
     multiple (f + 1) ⟨inp, stk⟩ = (.ok ls, ⟨rest, stk⟩) := by
   rw [multiple]
   psimp [h1, h2]
+
+namespace Loc
+
+/-! ### structural equality test -/
+
+mutual
+theorem beq_eq : ∀ a b : Loc, beq a b = true → a = b
+  | between a, b, h => by cases b <;> simp_all [beq]
+  | point a, b, h => by cases b <;> simp_all [beq]
+  | ranged s e p q, b, h => by cases b <;> simp_all [beq]
+  | ambiguous s e, b, h => by cases b <;> simp_all [beq]
+  | joined a, b, h => by
+      cases b <;> simp [beq] at h
+      rw [beqList_eq a _ h]
+  | ordered a, b, h => by
+      cases b <;> simp [beq] at h
+      rw [beqList_eq a _ h]
+  | compl a, b, h => by
+      cases b <;> simp [beq] at h
+      rw [beq_eq a _ h]
+theorem beqList_eq : ∀ a b : List Loc, beqList a b = true → a = b
+  | [], b, h => by cases b <;> simp_all [beqList]
+  | x :: xs, b, h => by
+      cases b with
+      | nil => simp [beqList] at h
+      | cons y ys =>
+        simp only [beqList, Bool.and_eq_true] at h
+        rw [beq_eq x y h.1, beqList_eq xs ys h.2]
+end
+
+/-! ### the smart constructors on canonical parts -/
+
+theorem complement_of_not_compl (l : Loc) (h : isCompl l = false) : l.complement = compl l := by
+  cases l <;> simp_all [complement, isCompl]
+
+theorem flattenOrd_of_not_ordered (l : Loc) (h : isOrdered l = false) : flattenOrd l = [l] := by
+  cases l <;> simp_all [flattenOrd, isOrdered]
+
+theorem flattenOrdList_of_none : ∀ ls : List Loc, ls.any isOrdered = false → flattenOrdList ls = ls
+  | [], _ => by simp [flattenOrdList]
+  | l :: ls, h => by
+      simp only [List.any_cons, Bool.or_eq_false_iff] at h
+      simp [flattenOrdList, flattenOrd_of_not_ordered l h.1, flattenOrdList_of_none ls h.2]
+
+theorem order_of_canon (ls : List Loc) (h2 : 2 ≤ ls.length) (h : ls.any isOrdered = false) :
+    order ls = ordered ls := by
+  unfold order
+  rw [flattenOrdList_of_none ls h]
+  match ls, h2 with
+  | _ :: _ :: _, _ => rfl
+
+end Loc
+
+/-! ### first byte and length of a printed location -/
+
+theorem isSpace_of_isDigit (c : UInt8) (h : isDigit c = true) : isSpace c = false := by
+  cases hs : isSpace c with
+  | false => rfl
+  | true =>
+    simp only [isSpace, Bool.or_eq_true, beq_iff_eq] at hs
+    rcases hs with ((((rfl | rfl) | rfl) | rfl) | rfl) | rfl <;> revert h <;> decide
+
+theorem dec_cons (n : Int) : ∃ c r, dec n = c :: r ∧ isSpace c = false := by
+  unfold dec
+  split
+  · exact ⟨45, _, rfl, by decide⟩
+  · obtain ⟨d, ds, h, hd⟩ := natDigits_cons n.toNat
+    exact ⟨d, ds, h, isSpace_of_isDigit d hd⟩
+
+namespace Loc
+
+/-- a printed location starts with a byte that `locationDelimiter` does not skip -/
+theorem printB_cons (l : Loc) : ∃ c r, printB l = c :: r ∧ isSpace c = false := by
+  cases l with
+  | between p =>
+    obtain ⟨c, r, h, hc⟩ := dec_cons p
+    exact ⟨c, _, by rw [printB, h]; rfl, hc⟩
+  | point p =>
+    obtain ⟨c, r, h, hc⟩ := dec_cons (p + 1)
+    exact ⟨c, _, by rw [printB, h], hc⟩
+  | ranged s e p5 p3 =>
+    obtain ⟨c, r, h, hc⟩ := dec_cons (s + 1)
+    cases p5
+    · exact ⟨c, _, by rw [printB, h]; rfl, hc⟩
+    · exact ⟨60, _, by rw [printB]; rfl, by decide⟩
+  | ambiguous s e =>
+    obtain ⟨c, r, h, hc⟩ := dec_cons (s + 1)
+    exact ⟨c, _, by rw [printB, h]; rfl, hc⟩
+  | joined ls => exact ⟨106, _, by rw [printB, str_join]; rfl, by decide⟩
+  | ordered ls => exact ⟨111, _, by rw [printB, str_order]; rfl, by decide⟩
+  | compl l => exact ⟨99, _, by rw [printB, str_complement]; rfl, by decide⟩
+
+mutual
+/-- recursion fuel that `ParseLocation` needs to read `printB l` back -/
+def need : Loc → Nat
+  | joined ls => needList ls + 3
+  | ordered ls => needList ls + 3
+  | compl l => need l + 2
+  | _ => 1
+def needList : List Loc → Nat
+  | [] => 0
+  | l :: ls => need l + needList ls + 1
+end
+
+theorem length_le_needList : ∀ ls : List Loc, ls.length ≤ needList ls
+  | [] => by simp [needList]
+  | l :: ls => by
+      have := length_le_needList ls
+      simp only [needList, List.length_cons]
+      omega
+
+mutual
+/-- every nesting level prints more bytes than it needs fuel -/
+theorem need_le_length : ∀ l : Loc, need l ≤ (printB l).length
+  | between p => by simp [need, printB]; omega
+  | point p => by
+      obtain ⟨c, r, h, _⟩ := dec_cons (p + 1)
+      simp [need, printB, h]
+  | ranged s e p5 p3 => by simp [need, printB]; omega
+  | ambiguous s e => by simp [need, printB]; omega
+  | joined [] => by simp [need, needList, printB, str_join]
+  | joined (l :: ls) => by
+      have h1 := need_le_length l
+      have h2 := needList_le_length ls
+      simp only [need, needList, printB, printListB, str_join, List.length_append, List.length_cons,
+        List.length_nil]
+      omega
+  | ordered [] => by simp [need, needList, printB, str_order]
+  | ordered (l :: ls) => by
+      have h1 := need_le_length l
+      have h2 := needList_le_length ls
+      simp only [need, needList, printB, printListB, str_order, List.length_append, List.length_cons,
+        List.length_nil]
+      omega
+  | compl l => by
+      have h1 := need_le_length l
+      simp only [need, printB, str_complement, List.length_append, List.length_cons, List.length_nil]
+      omega
+theorem needList_le_length : ∀ ls : List Loc, needList ls ≤ (printTailB ls).length
+  | [] => by simp [needList]
+  | l :: ls => by
+      have h1 := need_le_length l
+      have h2 := needList_le_length ls
+      simp only [needList, printTailB, List.length_append, List.length_cons]
+      omega
+end
+
+end Loc
+
+/-! ### the round trip -/
+
+namespace Loc
+
+theorem coordOk_nat {x : Int} (h : coordOk x = true) : ∃ a : Nat, x = a ∧ a ≤ 4611686018427387904 := by
+  simp only [coordOk, Bool.and_eq_true, decide_eq_true_eq] at h
+  exact ⟨x.toNat, by omega, by omega⟩
+
+theorem delim_tail (ls : List Loc) (rest : Bytes) : Delim (printTailB ls ++ 41 :: rest) := by
+  cases ls with
+  | nil => exact Or.inr rfl
+  | cons l ls => exact Or.inl rfl
+
+mutual
+/-- **`ParseLocation` reads back every printed canonical location**, at any nesting depth and
+arity, in front of any delimiter, with any stack, given `need l` units of recursion fuel. -/
+theorem loc_printB : ∀ (l : Loc), canonP l = true → ∀ (f : Nat) (rest : Bytes) (stk : List Bytes),
+    need l ≤ f → Delim rest → loc f ⟨printB l ++ rest, stk⟩ = (.ok l, ⟨rest, stk⟩)
+  | between p, hc, f, rest, stk, hf, hd => by
+      obtain ⟨a, rfl, ha⟩ := coordOk_nat (by simpa [canonP] using hc)
+      obtain ⟨f, rfl⟩ : ∃ f', f = f' + 1 := ⟨f - 1, by simp only [need] at hf; omega⟩
+      rw [printB, dec_ofNat, dec_succ]
+      simp only [List.append_assoc, List.cons_append]
+      exact loc_between f a rest stk (by omega) hd.sep
+  | point p, hc, f, rest, stk, hf, hd => by
+      obtain ⟨a, rfl, ha⟩ := coordOk_nat (by simpa [canonP] using hc)
+      obtain ⟨f, rfl⟩ : ∃ f', f = f' + 1 := ⟨f - 1, by simp only [need] at hf; omega⟩
+      rw [printB, dec_succ]
+      have h := loc_point f (a + 1) rest stk (by omega) hd.sep
+      rw [show ((a + 1 : Nat) : Int) - 1 = (a : Int) by omega] at h
+      exact h
+  | ranged s e p5 p3, hc, f, rest, stk, hf, hd => by
+      simp only [canonP, Bool.and_eq_true] at hc
+      obtain ⟨a, rfl, ha⟩ := coordOk_nat hc.1
+      obtain ⟨b, rfl, hb⟩ := coordOk_nat hc.2
+      obtain ⟨f, rfl⟩ : ∃ f', f = f' + 1 := ⟨f - 1, by simp only [need] at hf; omega⟩
+      rw [printB, dec_ofNat, dec_succ]
+      simp only [List.append_assoc, List.cons_append]
+      have h := loc_ranged f (a + 1) b p5 p3 rest stk (by omega) (by omega) hd.sep
+      rw [show ((a + 1 : Nat) : Int) - 1 = (a : Int) by omega] at h
+      exact h
+  | ambiguous s e, hc, f, rest, stk, hf, hd => by
+      simp only [canonP, Bool.and_eq_true] at hc
+      obtain ⟨a, rfl, ha⟩ := coordOk_nat hc.1
+      obtain ⟨b, rfl, hb⟩ := coordOk_nat hc.2
+      obtain ⟨f, rfl⟩ : ∃ f', f = f' + 1 := ⟨f - 1, by simp only [need] at hf; omega⟩
+      rw [printB, dec_ofNat, dec_succ]
+      simp only [List.append_assoc, List.cons_append]
+      have h := loc_ambiguous f (a + 1) b rest stk (by omega) (by omega) hd.sep
+      rw [show ((a + 1 : Nat) : Int) - 1 = (a : Int) by omega] at h
+      exact h
+  | compl l, hc, f, rest, stk, hf, hd => by
+      simp only [canonP, Bool.and_eq_true, Bool.not_eq_true'] at hc
+      obtain ⟨f, rfl⟩ : ∃ f', f = f' + 2 := ⟨f - 2, by simp only [need] at hf; omega⟩
+      have hf' : need l ≤ f := by simp only [need] at hf; omega
+      rw [printB, str_complement]
+      simp only [List.append_assoc, List.cons_append, List.nil_append]
+      have h := loc_complement f (printB l ++ 41 :: rest) rest l stk
+        (fun stk' => loc_printB l hc.1 f (41 :: rest) stk' hf' (Or.inr rfl))
+      rw [complement_of_not_compl l hc.2] at h
+      exact h
+  | joined [], hc, f, rest, stk, hf, hd => by simp [canonP] at hc
+  | joined (l :: ls), hc, f, rest, stk, hf, hd => by
+      simp only [canonP, canonPList, Bool.and_eq_true] at hc
+      obtain ⟨⟨⟨⟨hl, hls⟩, _⟩, _⟩, hj⟩ := hc
+      obtain ⟨f, rfl⟩ : ∃ f', f = f' + 1 + 2 := ⟨f - 3, by simp only [need] at hf; omega⟩
+      have hf1 : need l ≤ f := by simp only [need, needList] at hf; omega
+      have hf2 : needList ls ≤ f := by simp only [need, needList] at hf; omega
+      rw [printB, printListB, str_join]
+      simp only [List.append_assoc, List.cons_append, List.nil_append]
+      have hm : ∀ stk', multiple (f + 1) ⟨printB l ++ (printTailB ls ++ 41 :: rest), stk'⟩ =
+          (.ok (l :: ls), ⟨41 :: rest, stk'⟩) := fun stk' =>
+        multiple_run f l (l :: ls) _ (printTailB ls ++ 41 :: rest) (41 :: rest) stk'
+          (fun stk'' => loc_printB l hl f _ stk'' hf1 (delim_tail ls rest))
+          (fun stk'' => more_printB ls hls f f [l] rest stk'' hf2
+            (Nat.le_trans (length_le_needList ls) hf2))
+      have h := loc_join (f + 1) _ rest (l :: ls) stk hm
+      rw [beq_eq _ _ hj] at h
+      exact h
+  | ordered [], hc, f, rest, stk, hf, hd => by simp [canonP] at hc
+  | ordered (l :: ls), hc, f, rest, stk, hf, hd => by
+      simp only [canonP, canonPList, Bool.and_eq_true, Bool.not_eq_true', decide_eq_true_eq] at hc
+      obtain ⟨⟨⟨hl, hls⟩, h2⟩, hno⟩ := hc
+      obtain ⟨f, rfl⟩ : ∃ f', f = f' + 1 + 2 := ⟨f - 3, by simp only [need] at hf; omega⟩
+      have hf1 : need l ≤ f := by simp only [need, needList] at hf; omega
+      have hf2 : needList ls ≤ f := by simp only [need, needList] at hf; omega
+      rw [printB, printListB, str_order]
+      simp only [List.append_assoc, List.cons_append, List.nil_append]
+      have hm : ∀ stk', multiple (f + 1) ⟨printB l ++ (printTailB ls ++ 41 :: rest), stk'⟩ =
+          (.ok (l :: ls), ⟨41 :: rest, stk'⟩) := fun stk' =>
+        multiple_run f l (l :: ls) _ (printTailB ls ++ 41 :: rest) (41 :: rest) stk'
+          (fun stk'' => loc_printB l hl f _ stk'' hf1 (delim_tail ls rest))
+          (fun stk'' => more_printB ls hls f f [l] rest stk'' hf2
+            (Nat.le_trans (length_le_needList ls) hf2))
+      have h := loc_order (f + 1) _ rest (l :: ls) stk hm
+      rw [order_of_canon _ h2 hno] at h
+      exact h
+/-- the further parts of a printed `join(` / `order(`, up to the closing `)` -/
+theorem more_printB : ∀ (ls : List Loc), canonPList ls = true →
+    ∀ (f k : Nat) (acc : List Loc) (rest : Bytes) (stk : List Bytes), needList ls ≤ f → ls.length ≤ k →
+      multiple.more f k acc ⟨printTailB ls ++ 41 :: rest, stk⟩ =
+        (.ok (acc.reverse ++ ls), ⟨41 :: rest, stk⟩)
+  | [], _, f, k, acc, rest, stk, _, _ => by
+      rw [printTailB, List.nil_append, List.append_nil]
+      exact more_stop f k acc rest stk
+  | l :: ls, hc, f, k, acc, rest, stk, hf, hk => by
+      simp only [canonPList, Bool.and_eq_true] at hc
+      obtain ⟨k, rfl⟩ : ∃ k', k = k' + 1 := ⟨k - 1, by simp only [List.length_cons] at hk; omega⟩
+      have hf1 : need l ≤ f := by simp only [needList] at hf; omega
+      have hf2 : needList ls ≤ f := by simp only [needList] at hf; omega
+      obtain ⟨c, r, hpr, hsp⟩ := printB_cons l
+      have h := fun stk' => loc_printB l hc.1 f (printTailB ls ++ 41 :: rest) stk' hf1 (delim_tail ls rest)
+      rw [hpr] at h
+      rw [printTailB]
+      simp only [List.append_assoc, List.cons_append]
+      rw [hpr]
+      simp only [List.cons_append] at h ⊢
+      rw [more_step f k acc l c _ _ stk hsp h]
+      rw [more_printB ls hc.2 f k (l :: acc) rest stk hf2 (by simp only [List.length_cons] at hk; omega)]
+      simp
+end
+
+end Loc
 
 end Gts
